@@ -143,7 +143,7 @@ func solveAll(obls []*Obligation, workDir string, secs int, workers int) {
 				lite := o.ctx.render(o.PC, o.Goal, false, o.Cands, o.Lens, true)
 				lfile := strings.TrimSuffix(file, ".smt2") + ".lite.smt2"
 				os.WriteFile(lfile, []byte(header+"; phase A: quantified hypotheses replaced by their ground instances\n"+lite), 0o644)
-				st, out, dur := runSolver(context.Background(), solvers[0], lfile, 4)
+				st, out, dur := runSolver(context.Background(), solvers[0], lfile, liteSecs(secs))
 				if st == "unsat" {
 					fi, _ := os.Stat(lfile)
 					o.Result = &SolveResult{Status: "unsat", Solver: solvers[0].name + "(ground)", TimeS: dur, Output: out, File: lfile, Bytes: int(fi.Size()), Tried: []string{"ground:unsat"}}
@@ -176,4 +176,11 @@ func safeName(s string) string {
 		out = out[:120]
 	}
 	return out
+}
+
+func liteSecs(secs int) int {
+	if secs < 10 {
+		return secs
+	}
+	return 10
 }
